@@ -377,81 +377,129 @@ Proof.
   - destruct a, b, c, d, e; reflexivity.
 Qed.
 
-(* ---------- setattr_delegate 2559-2660 (one step of the delegation chain, TRAIT_MODIFY_DELEGATE) ----------
-   local 6 = delegate: obtained by PyDict_GetItem (borrowed) — or by has_traits_getattro followed at once by
-   Py_DECREF (2588-2594), i.e. also borrowed —, then delegate_attr_name runs (a new name, local 7), the target
-   trait is looked up in the delegate's trait dicts (Use 6), and the target's setattr is called ON the delegate
-   (validators, post_setattr, notifiers: Callback) and keeps using it afterwards. *)
+(* ---------- trait objects and delegates across callbacks ----------
+   Since the repairs e2bc43c (setattr_delegate), ec2634d (has_traits_setattro), fa529d7 (has_traits_getattro) and
+   8fb7f44 (trait_property_changed) these paths hold OWNED references to the delegate object, the delegated-to trait
+   and the trait object while user code runs.  Locals: 6 delegate, 7 resolved attribute name, 8 trait object
+   (has_traits_*: fetched from the instance-trait dict, modelled by the same adversarial dict: remove_trait /
+   add_trait from a callback change it), 10 the delegated-to trait, 11 the temporary delegate. *)
 Definition L_DEL := 6%nat.
 Definition L_NAME := 7%nat.
-Definition p_setattr_delegate (dname : Z) : list instr :=
-  [Lookup dname L_DEL;            (* 2579-2583 *)
-   Use L_DEL;                     (* 2598: PyHasTraits_Check(delegate) *)
-   New L_NAME;                    (* 2603: delegate_attr_name -> new reference *)
-   Use L_DEL;                     (* 2606-2613: delegate->itrait_dict / ctrait_dict *)
-   Use L_DEL; Use L_ARG;          (* 2626: traitd->setattr(traitd, traitd, delegate, daname, value) ... *)
-   Callback;                      (*       ... whose validator / hooks run arbitrary code ... *)
-   Use L_DEL;                     (*       ... and which goes on using `obj` = delegate (dict, notifiers) *)
-   Release L_NAME].               (* 2643 *)
+Definition L_TRAIT := 8%nat.
+Definition L_TD := 10%nat.
+Definition L_TMP := 11%nat.
 
-(* the code as it is does NOT pass the ownership check, and there is an adversary (the validator re-assigns the
-   delegating object's delegate attribute) under which it uses a freed delegate: KNOWN FINDING
-   crash/finalizer/delegate-replaced-during-delegated-set, reproduced on the implementation *)
+(* setattr_delegate (one link of the chain; `from_dict`: the delegate is in the instance dict, else it is computed
+   by has_traits_getattro — a new reference, possibly with no other owner; `modify`: TRAIT_MODIFY_DELEGATE) *)
+Definition p_setattr_delegate (dname tname : Z) (from_dict getattr_ok has_trait : bool) : list instr :=
+  [AcquireAs L_DEL L_OBJ]                                        (* delegate = obj; Py_INCREF(delegate) *)
+  ++ [Lookup tname L_TD; Acquire L_TD]                           (* Py_INCREF(traitd): the caller's traitd is borrowed *)
+  ++ (if from_dict then [Lookup dname L_TMP; Acquire L_TMP]      (* PyDict_GetItem + Py_INCREF(temp_delegate) *)
+      else [Use L_DEL; Use L_TD; Callback] ++ (if getattr_ok then [New L_TMP] else []))   (* has_traits_getattro *)
+  ++ (if negb from_dict && negb getattr_ok then [Release L_TD; Release L_DEL]
+      else
+        [Use L_TD; Use L_DEL; New L_NAME]                        (* delegate_attr_name(traitd, delegate, daname) *)
+        ++ [Release L_DEL; AcquireAs L_DEL L_TMP; Release L_TMP] (* Py_DECREF(delegate); delegate = temp_delegate *)
+        ++ [Use L_DEL]                                           (* PyHasTraits_Check / trait dict lookups *)
+        ++ (if negb has_trait then [Release L_TD; Release L_DEL; Release L_NAME]
+            else
+              [Release L_TD; Lookup tname L_TD; Acquire L_TD]    (* Py_INCREF(temp_traitd); Py_DECREF(traitd) *)
+              ++ [Use L_TD; Use L_DEL; Use L_NAME; Use L_ARG; Callback]   (* traitd->setattr(traitd, traitd, delegate, ...) *)
+              ++ [Use L_TD; Use L_DEL]                           (* ... which goes on using both *)
+              ++ [Release L_TD; Release L_DEL; Release L_NAME])).
+
+(* has_traits_setattro / has_traits_getattro: Py_INCREF(trait) around trait->setattr / trait->getattr *)
+Definition p_has_traits_setattro (tname : Z) : list instr :=
+  [Lookup tname L_TRAIT; Acquire L_TRAIT; Use L_TRAIT; Use L_ARG; Callback; Use L_TRAIT; Release L_TRAIT].
+Definition p_has_traits_getattro (tname : Z) : list instr :=
+  [Lookup tname L_TRAIT; Acquire L_TRAIT; Use L_TRAIT; Callback; Use L_TRAIT; Release L_TRAIT].
+(* trait_property_changed: get_trait gives a new reference; tnotifiers is a field of the (owned) trait; the property
+   getter runs; call_notifiers uses the list; the trait is released afterwards *)
+Definition p_trait_property_changed (tname : Z) (getter_ok : bool) : list instr :=
+  [Lookup tname L_TRAIT; Acquire L_TRAIT; Use L_TRAIT; Callback]
+  ++ (if getter_ok then [Use L_TRAIT; Callback] else []) ++ [Release L_TRAIT].
+
+Lemma trait_paths_check : forall dname tname a b c g,
+  check PIN [] [] (p_setattr_delegate dname tname a b c) = true /\
+  check PIN [] [] (p_has_traits_setattro tname) = true /\
+  check PIN [] [] (p_has_traits_getattro tname) = true /\
+  check PIN [] [] (p_trait_property_changed tname g) = true.
+Proof. intros dname tname a b c g. destruct a, b, c, g; repeat split; reflexivity. Qed.
+
+Lemma trait_paths_frame : forall dname tname a b c g,
+  owned_after [] (p_setattr_delegate dname tname a b c) = [] /\
+  owned_after [] (p_has_traits_setattro tname) = [] /\
+  owned_after [] (p_has_traits_getattro tname) = [] /\
+  owned_after [] (p_trait_property_changed tname g) = [].
+Proof. intros dname tname a b c g. destruct a, b, c, g; repeat split; reflexivity. Qed.
+
+(* the delegate, the delegated-to trait and the trait object are never used after user code ran unless the frame
+   owns them — for every adversary *)
+Theorem trait_and_delegate_paths_use_only_owned_references :
+  forall dname tname d e adv,
+    (forall a b c, run PIN (p_setattr_delegate dname tname a b c) (start d e) adv = true) /\
+    run PIN (p_has_traits_setattro tname) (start d e) adv = true /\
+    run PIN (p_has_traits_getattro tname) (start d e) adv = true /\
+    (forall g, run PIN (p_trait_property_changed tname g) (start d e) adv = true).
+Proof.
+  intros dname tname d e adv.
+  repeat split; intros; eapply check_sound; try apply rel_nil;
+    try (destruct (trait_paths_check dname tname a b c true) as [A _]; exact A);
+    try (destruct (trait_paths_check dname tname true true true true) as [_ [A _]]; exact A);
+    try (destruct (trait_paths_check dname tname true true true true) as [_ [_ [A _]]]; exact A);
+    try (destruct (trait_paths_check dname tname true true true g) as [_ [_ [_ A]]]; exact A).
+Qed.
+
+(* ---------- the code BEFORE those repairs (borrowed references), kept as refuted variants ---------- *)
+Definition p_setattr_delegate_borrowed (dname : Z) : list instr :=
+  [Lookup dname L_DEL; Use L_DEL; New L_NAME; Use L_DEL; Use L_DEL; Use L_ARG; Callback; Use L_DEL; Release L_NAME].
+Definition p_has_traits_setattro_borrowed (tname : Z) : list instr :=
+  [Lookup tname L_TRAIT; Use L_TRAIT; Use L_ARG; Callback; Use L_TRAIT].
+Definition p_has_traits_getattro_borrowed (tname : Z) : list instr :=
+  [Lookup tname L_TRAIT; Use L_TRAIT; Callback; Use L_TRAIT].
+Definition L_NOTIF := 9%nat.
+Definition p_trait_property_changed_borrowed (tname : Z) : list instr :=
+  [Lookup tname L_TRAIT; Acquire L_TRAIT; Lookup tname L_NOTIF; Release L_TRAIT; Callback; Use L_NOTIF].
+
 Theorem setattr_delegate_borrowed_refuted :
-  check PIN [] [] (p_setattr_delegate 9) = false /\
-  exists d e adv, run PIN (p_setattr_delegate 9) (start d e) adv = false.
+  check PIN [] [] (p_setattr_delegate_borrowed 9) = false /\
+  exists d e adv, run PIN (p_setattr_delegate_borrowed 9) (start d e) adv = false.
 Proof.
   split; [reflexivity|].
   exists [(9, 60)], (fun k => Z.of_nat k), [([(9, 60)], 70); ([], 0)]. vm_compute. reflexivity.
 Qed.
 
-(* with Py_INCREF(delegate) held over the loop body (the candidate repair) the path passes the check *)
-Definition p_setattr_delegate_owned (dname : Z) : list instr :=
-  [Lookup dname L_DEL; Acquire L_DEL; Use L_DEL; New L_NAME; Use L_DEL; Use L_DEL; Use L_ARG; Callback; Use L_DEL;
-   Release L_NAME; Release L_DEL].
-Lemma setattr_delegate_owned_checks : check PIN [] [] (p_setattr_delegate_owned 9) = true.
-Proof. reflexivity. Qed.
-
-(* ---------- has_traits_setattro 649-666 -> setattr_trait ----------
-   local 8 = the trait object: dict_getitem(obj->itrait_dict, name) — BORROWED from the instance-trait dict (modelled
-   by the same adversarial dict: remove_trait / add_trait from a callback change it) — then
-   trait->setattr(trait, trait, obj, name, value): setattr_trait reads traitd->validate, calls it (Callback), and
-   reads traitd->flags (2471), traitd->post_setattr (2479), traito->notifiers (2475) afterwards. *)
-Definition L_TRAIT := 8%nat.
-Definition p_has_traits_setattro (tname : Z) : list instr :=
-  [Lookup tname L_TRAIT; Use L_TRAIT; Use L_ARG; Callback; Use L_TRAIT].
-
 Theorem has_traits_setattro_borrowed_refuted :
-  check PIN [] [] (p_has_traits_setattro 9) = false /\
-  exists d e adv, run PIN (p_has_traits_setattro 9) (start d e) adv = false.
-Proof.
-  split; [reflexivity|].
-  exists [(9, 60)], (fun k => Z.of_nat k), [([], 0)]. vm_compute. reflexivity.
-Qed.
-
-(* ---------- the same shape on the read path and in trait_property_changed ----------
-   has_traits_getattro 857-862: trait borrowed from the instance-trait dict, trait->getattr(trait, obj, name) runs the
-   default callable (Callback) and then reads trait->post_setattr / trait->notifiers.
-   trait_property_changed 1094-1135: local 9 = the notifier list, read from the trait, which is then released;
-   has_traits_getattro(obj, name) (the property getter) runs before call_notifiers uses the list. *)
-Definition L_NOTIF := 9%nat.
-Definition p_has_traits_getattro (tname : Z) : list instr :=
-  [Lookup tname L_TRAIT; Use L_TRAIT; Callback; Use L_TRAIT].
-Definition p_trait_property_changed (tname : Z) : list instr :=
-  [Lookup tname L_TRAIT; Acquire L_TRAIT;          (* get_trait: a new reference *)
-   Lookup tname L_NOTIF;                           (* tnotifiers = trait->notifiers: borrowed from the trait, itself
-                                                      kept alive only by the instance-trait dict once ... *)
-   Release L_TRAIT;                                (* ... Py_DECREF(trait) 1112 *)
-   Callback;                                       (* 1117: has_traits_getattro(obj, name) *)
-   Use L_NOTIF].                                   (* 1123: call_notifiers(tnotifiers, ...) *)
+  check PIN [] [] (p_has_traits_setattro_borrowed 9) = false /\
+  exists d e adv, run PIN (p_has_traits_setattro_borrowed 9) (start d e) adv = false.
+Proof. split; [reflexivity|]. exists [(9, 60)], (fun k => Z.of_nat k), [([], 0)]. vm_compute. reflexivity. Qed.
 
 Theorem borrowed_trait_on_read_and_property_changed_refuted :
-  (check PIN [] [] (p_has_traits_getattro 9) = false /\
-   exists d e adv, run PIN (p_has_traits_getattro 9) (start d e) adv = false) /\
-  (check PIN [] [] (p_trait_property_changed 9) = false /\
-   exists d e adv, run PIN (p_trait_property_changed 9) (start d e) adv = false).
+  (check PIN [] [] (p_has_traits_getattro_borrowed 9) = false /\
+   exists d e adv, run PIN (p_has_traits_getattro_borrowed 9) (start d e) adv = false) /\
+  (check PIN [] [] (p_trait_property_changed_borrowed 9) = false /\
+   exists d e adv, run PIN (p_trait_property_changed_borrowed 9) (start d e) adv = false).
 Proof.
   split; (split; [reflexivity|]).
   - exists [(9, 60)], (fun k => Z.of_nat k), [([], 0)]. vm_compute. reflexivity.
   - exists [(9, 60)], (fun k => Z.of_nat k), [([], 0); ([], 0)]. vm_compute. reflexivity.
+Qed.
+
+(* ---------- call_notifiers 2259-2329: a private snapshot of the notifier lists ----------
+   local 12 = all_notifiers: a NEW list owning a reference to every notifier (2295-2309); the handlers run (and may
+   unregister handlers, i.e. change the lists the snapshot was taken from); the loop uses only the snapshot. *)
+Definition L_SNAP := 12%nat.
+Definition p_call_notifiers (nlist : Z) : list instr :=
+  [Lookup nlist L_NOTIF; Use L_NOTIF; New L_SNAP; Callback; Use L_SNAP; Callback; Use L_SNAP; Release L_SNAP].
+(* the shape of seed C18-u1: iterate over the object's own notifier list while the handlers run *)
+Definition p_call_notifiers_live_list (nlist : Z) : list instr :=
+  [Lookup nlist L_NOTIF; Use L_NOTIF; Callback; Use L_NOTIF; Callback; Use L_NOTIF].
+
+Theorem call_notifiers_snapshot :
+  (forall nlist d e adv, run PIN (p_call_notifiers nlist) (start d e) adv = true) /\
+  check PIN [] [] (p_call_notifiers_live_list 9) = false /\
+  exists d e adv, run PIN (p_call_notifiers_live_list 9) (start d e) adv = false.
+Proof.
+  split; [intros; apply (check_sound PIN _ [] []); [reflexivity | apply rel_nil]|]. split; [reflexivity|].
+  exists [(9, 60)], (fun k => Z.of_nat k), [([], 0)]. vm_compute. reflexivity.
 Qed.
